@@ -25,7 +25,7 @@ func init() { Register("C03", "exploration", checkC03) }
 func checkC03(c *Ctx) {
 	c.Rule = "signing proposals built through the API (explicit payload maps, baked ranges) and hand-built signed proposals mixing several explicit tasks and several ranges (empty range, single position, list boundaries), payload bytes incl. 0x00/0xff/JSON metacharacters/>64 KiB, names with spaces and unicode, duplicate payloads; n in {2,3}. For every message of every proposal: each participant's partial signature is verified (prysm) under that participant's share public key over the harness-expanded bytes; id lists, stored SrcPayload/File/ValIdx, broadcasts and exports are compared with the independent expansion. distinct = distinct (proposal shape, n) with at least one judged partial signature"
 	c.Assumptions = []string{"independent expansion: pinned list + independent SSZ reference", "prysm/blst verifies partial signatures under PubPoly.Eval(i)"}
-	worlds := c.Pick(12, 240)
+	worlds := c.Pick(32, 240)
 	perWorld := c.Pick(6, 16)
 	Parallel(worlds, 16, func(wi int) {
 		seed := c.Seed*104729 + uint64(wi)
